@@ -5,8 +5,11 @@ import json, glob, os, re
 rows = []
 for d in sorted(glob.glob('/verif/seeded/*')):
     m = json.load(open(d + '/meta.json'))
+    caught = m['caught_by'].replace('|', '/')
+    if m.get('obsolete'):
+        caught += ' - OBSOLETE: ' + m['obsolete'].replace('|', '/')
     rows.append('| %s | %s | %s | %s | %s |' % (os.path.basename(d), m['change'].replace('|', '/'), m['needs_to_manifest'].replace('|', '/'),
-                                            m['caught_by'].replace('|', '/'), ('yes: ' + m.get('strengthening', '')) if m.get('missed_at_first') else 'no'))
+                                            caught, ('yes: ' + m.get('strengthening', '')) if m.get('missed_at_first') else 'no'))
 out = ['| id | change (author: independent sub-agent) | needs | caught by | missed at first -> strengthening |', '|---|---|---|---|---|'] + rows
 hand = []
 res = '/verif/sensitivity/RESULTS.txt'
